@@ -36,6 +36,8 @@ RUNSPECS = [
     ("0", "1", True), ("0", "0.5", True), ("1", "0.25", True), ("0", "0.125", True), ("2", "0.5", True),
     ("0", "0.1", False), ("1", "0.2", False), ("0", "0.05", False), ("0.5", "0.1", False), ("2.3", "0.1", False),
     ("0.5", "0.25", True), ("1", "1", True),
+    # start time written with more decimals than dt
+    ("0.5", "1", True), ("0.25", "0.5", True), ("2.3", "0.5", False), ("0.1", "0.2", False), ("100.7", "0.1", False), ("0.125", "0.25", True),
 ]
 
 
